@@ -170,19 +170,29 @@ def r16_2(run, model):
     for loop in S.find(lp.body, "For"):
         if "read_gom_sources" not in S.norm_ws(run.facts.text(PK, loop["iter"]["sp"])) and not any(True for _ in S.calls(loop["body"], "parse_ast_file")):
             continue
-        for iff in S.find(loop["body"], "If"):
-            txt = S.norm_ws(run.facts.text(PK, iff["cond"]["sp"]))
-            m = re.search(r"package\.0!=([A-Za-z_]+)|([A-Za-z_]+)!=&?ast\.package\.0", txt)
+        # the comparison is an `if` or the guard of a match arm
+        tests = [(iff["cond"], iff["then"], iff, None) for iff in S.find(loop["body"], "If")]
+        for mt in S.find(loop["body"], "Match"):
+            for arm in mt["arms"]:
+                if arm.get("guard") is not None:
+                    tests.append((arm["guard"], arm["body"], arm, mt))
+        for cond_n, taken, iff, mt in tests:
+            txt = S.norm_ws(run.facts.text(PK, cond_n["sp"]))
+            m = re.search(r"package\.0!=&?([A-Za-z_]+)|([A-Za-z_]+)!=&?ast\.package\.0", txt)
             if not m:
                 continue
-            rets = [r for r in S.find(iff["then"], "Return")]
+            rets = [r for r in S.find(taken, "Return")]
             if not rets:
                 detail = "package mismatch does not return Err"
                 continue
             existing = m.group(1) or m.group(2)
-            # `existing` comes from `if let Some(existing) = &V`; V must be (re)established inside the loop for files after the first
+            # `existing` comes from `if let Some(existing) = &V` (or `match &V { Some(existing) if .. }`); V must be (re)established
+            # inside the loop for files after the first
             par = S.Parents(loop["body"])
             guard_var = None
+            if mt is not None and existing in S.pat_bindings(iff["pat"]):
+                ids = S.idents(mt["scrut"])
+                guard_var = sorted(ids)[0] if ids else None
             for a in par.ancestors(iff):
                 if a["k"] == "If":
                     for l in S.find(a["cond"], "Let"):
@@ -274,14 +284,23 @@ def r16_3(run, model, mir):
                 n += 1
                 first_ap = ap[0]
                 dup = False
-                for s in stmts[:first_ap]:
-                    for inner in S.find(s, "For"):
+                def dup_test_in(node):
+                    for inner in S.find(node, "For"):
                         it = S.norm_ws(run.facts.text(rel, inner["iter"]["sp"]))
                         if "trait_impls" in it:
                             for iff in S.find(inner["body"], "If"):
                                 ct = S.norm_ws(run.facts.text(rel, iff["cond"]["sp"]))
                                 if "trait_impls.contains_key(" in ct and not ct.startswith("!") and (reports_error(iff["then"]) or any(True for _ in S.find(iff["then"], "Return"))):
-                                    dup = True
+                                    return True
+                    return False
+                helpers = {g.name: g for g in model.fns(rel) if g.body is not None and g.name != f.name}
+                for s in stmts[:first_ap]:
+                    if dup_test_in(s):
+                        dup = True
+                    # the test may live in a helper of the same file called here
+                    for c in S.walk(s):
+                        if c["k"] in ("Call", "MethodCall") and S.callee_name(c) in helpers and dup_test_in(helpers[S.callee_name(c)].body):
+                            dup = True
                 run.ob("R16.3", f"{f.qual}|duplicate test precedes apply_to", dup, site(rel, loop["sp"]),
                        "merge loop tests genv.trait_env.trait_impls.contains_key(key) for every exported impl before apply_to" if dup else
                        "exports are merged into the shared environment without the cross-package duplicate test",
